@@ -23,6 +23,8 @@ inline uint64_t stamp() { return gSeq.fetch_add(1, std::memory_order_relaxed) + 
 
 struct FanTls { const void *h = nullptr; uint64_t sid = 0; uint64_t tok = 0; int depth = 0; };
 inline thread_local FanTls tFan; // the close fan-out this (I/O) thread is currently inside
+struct FlushTls { const void *h = nullptr; uint64_t startSeq = 0; };
+inline thread_local FlushTls tFlush; // this (application) thread is inside setReadMode(): data callbacks are the Sync->Async flush
 
 enum RegCtx { RC_ACTOR = 0, RC_ANNOUNCE, RC_DATA, RC_GLOBALCLOSE, RC_OBSERVER, RC_OTHER_IO, RC_RACY, RC_CLEANUP };
 enum Ann { A_NONE = 0, A_ACCEPT = 1, A_CONNECT = 2 };
@@ -41,7 +43,7 @@ struct CbPlan // what the application does from inside callbacks for one session
 {
   uint64_t seed = 0;
   int obsAtAnnounce = 0; bool udAtAnnounce = false; bool closeAtAnnounce = false;
-  int obsAtData = 0; bool udAtData = false; bool unobsAtData = false; bool closeAtData = false;
+  int obsAtData = 0; bool udAtData = false; bool unobsAtData = false; bool closeAtData = false; bool modeAtData = false;
   int obsAtClose = 0; bool udAtClose = false; bool unobsAtClose = false;
   bool udCallbacks = false; // callbacks are the only user-data agent of this session
   bool gate = false;        // connect() and plan registration are atomic w.r.t. the session's first callback
@@ -66,6 +68,7 @@ struct Sess
   uint64_t id = 0, firstSeq = 0;
   bool connRet = false, connFromIo = false; uint64_t connCallSeq = 0, connRetSeq = 0; int target = T_NONE;
   int ann = A_NONE; uint64_t annSeq = 0; bool annBeforeRet = false;
+  bool resyncAfterClose = false; // the application set Sync/Disabled on the already closed id
   bool tlsAccepted = false, hsConnectCb = false; // accepted on the TLS listener; got its handshake-complete connect callback
   int closes = 0; uint64_t closeSeq = 0, closeEndSeq = 0; int closeCode = -1; std::string closeMsg; int closeErrno = 0; bool closeBeforeRet = false;
   uint64_t dataEvents = 0;
@@ -132,7 +135,7 @@ struct Hist
   int violCount = 0;
 
   // ---- control
-  std::atomic<bool> stopping{false}, stopDone{false};
+  std::atomic<bool> stopping{false}, stopDone{false}, stopWaitsForActors{false};
   std::atomic<uint64_t> stallUntilNs{0};
   std::atomic<int> reconnectBudget{0};
   std::mutex gateMu; std::atomic<int> gatePending{0};
@@ -397,27 +400,71 @@ struct Hist
     }
     ioExit();
   }
+  // setReadMode() from an application thread; data callbacks it makes (the Sync->Async flush) are attributed to it
+  bool setMode(uint64_t sid, ReadMode m)
+  {
+    if (m != ReadMode::Async)
+    {
+      std::lock_guard<std::mutex> g(mu);
+      auto it = sess.find(sid);
+      if (it != sess.end() && it->second.closes > 0) it->second.resyncAfterClose = true;
+    }
+    tFlush.h = this; tFlush.startSeq = stamp();
+    { std::lock_guard<std::mutex> g(mu); sess[sid].tr(m == ReadMode::Sync ? "mode=S" : m == ReadMode::Async ? "mode=A" : "mode=D", tFlush.startSeq); }
+    bool ok = false;
+    try { ok = T->setReadMode(sid, m); } catch (const std::exception &) { countL("readmode_set_threw"); }
+    tFlush.h = nullptr;
+    if (m != ReadMode::Async)
+    {
+      // the switch may have landed after the close fan-out although the close was not visible before the call
+      std::lock_guard<std::mutex> g(mu);
+      auto it = sess.find(sid);
+      if (it != sess.end() && it->second.closes > 0) it->second.resyncAfterClose = true;
+    }
+    return ok;
+  }
   void onData(SessionId sid, iora::core::BufferView data)
   {
     uint64_t s = stamp();
-    tFan = FanTls{};
+    const bool inFlush = tFlush.h == this; // delivered by setReadMode() on an application thread, not by the I/O thread
+    if (!inFlush) tFan = FanTls{};
     std::shared_ptr<CbPlan> plan; bool first = false;
     {
       std::lock_guard<std::mutex> g(mu);
       Sess &S = sess[sid]; S.id = sid;
       if (!S.firstSeq) S.firstSeq = s;
-      if (S.dataEvents < 3) S.tr("D", s);
+      if (S.dataEvents < 3 || inFlush) S.tr(inFlush ? "Dflush" : "D", s);
       nData++;
-      if (S.closes > 0) viol(K("data-after-close"), "data callback for an id after its close callback", &S, "\"bytes\":" + std::to_string(data.size()));
+      if (inFlush) count("readmode_flush_data_events");
+      if (S.closes > 0 && inFlush)
+      {
+        // the user-data cleanup is the last step of the close fan-out: a call that started after it started after the close completed
+        bool after = S.cleanupSeq && S.cleanupSeq < tFlush.startSeq;
+        std::string key = !after ? "data-after-close:setReadMode-flush-overlapping-close"
+                                 : S.resyncAfterClose ? "data-after-close:setReadMode-flush-after-close:mode-set-after-close" : "data-after-close:setReadMode-flush-after-close:direct";
+        viol(K(key),
+             !after ? "a setReadMode(Async) flush that overlapped the close fan-out delivered bytes through the data callback after the global close callback"
+                    : S.resyncAfterClose ? "after the close completed the application set Sync/Disabled on the closed id and then Async: the flush delivered the bytes left in the closed buffer through the data callback"
+                                         : "setReadMode(Async) called after the session's close had completed ran the Sync->Async flush and delivered buffered bytes through the data callback",
+             &S, "\"bytes\":" + std::to_string(data.size()));
+      }
+      else if (S.closes > 0) viol(K("data-after-close"), "data callback for an id after its close callback", &S, "\"bytes\":" + std::to_string(data.size()));
       else if (S.ann == A_NONE) viol(K("data-before-announce"), "data callback for an id before its accept/connect callback", &S, "\"bytes\":" + std::to_string(data.size()));
       S.dataEvents++;
-      if (!S.firstDataDone) { S.firstDataDone = true; first = true; plan = S.plan; }
+      if (!inFlush && !S.firstDataDone) { S.firstDataDone = true; first = true; plan = S.plan; }
     }
+    if (inFlush) { cv.notify_all(); return; }
     if (first && plan)
     {
       cbRegistrations(sid, plan->obsAtData, plan->udAtData && plan->udCallbacks, RC_DATA, plan->seed + 2);
       if (plan->unobsAtData) { if (ObsRec *o = firstLiveObserver(sid)) tryUnobserve(o, "in_data_cb"); }
       if (plan->closeAtData) { T->close(sid); countL("app_close_from_data_cb"); }
+      if (plan->modeAtData)
+      {
+        // the API refuses read-mode switches on the I/O thread (throws); it must not change anything
+        try { T->setReadMode(sid, ReadMode::Sync); countL("readmode_set_in_data_cb_accepted"); }
+        catch (const std::exception &) { countL("readmode_set_in_data_cb_refused"); }
+      }
     }
     ioExit();
   }
